@@ -40,6 +40,14 @@ def gen(rng, tier, no, wide=False):
                           "ranks": sorted(rng.sample(ranks, rng.randint(1, len(ranks)))),
                           "series": rng.choice(["both", "both", "queue", "bw", "default"]),
                           "suffix": rng.choice(["_with_counters", "_with_counters", "", "_c"])}
+        if rng.random() < 0.25:
+            # the source already has counter tracks of its own, some with the very names the tool uses
+            for ev in case["ranks"].values():
+                xs = [e for e in ev if e.get("ph") == "X" and "dur" in e]
+                for k in range(rng.randint(1, 3)):
+                    h = rng.choice(xs)
+                    ev.insert(rng.randint(1, len(ev)), {"ph": "C", "name": rng.choice(["Queue Length", "Memcpy HtoD", "Memset", "Dataloader queue", "Memcpy DtoD"]),
+                                                         "pid": h["pid"], "tid": h["tid"], "ts": h["ts"] + k, "args": {rng.choice(["7", "size", "13"]): rng.randint(0, 9)}})
     else:
         # one case in eight is a file of several MiB (thousands of metadata entries before the events)
         case = G.gen_case(rng, top_ops=rng.choice([1, 2]), max_depth=rng.choice([1, 2]), **({"pad_ids": 12000} if rng.random() < 0.12 else {}))
